@@ -436,25 +436,25 @@ def GCtx.getPtr (g : Option (GCtx D L)) (q : Getter) : Outcome (Option (GCtx D L
   | some g => (g.get env bopo q).map fun r => (some r.1, r.2)
 
 /-- a modelled call (`Model/CApiOps.lean`) or a getter call -/
-inductive CCall where
+inductive GCall where
   | op (o : COp)
   | get (q : Getter)
 deriving Repr, DecidableEq, Inhabited
 
-/-- the result of a `CCall` -/
-inductive CRes where
+/-- the result of a `GCall` -/
+inductive GRes where
   | rc (r : Int)
   | val (v : GVal)
 deriving Repr, DecidableEq, Inhabited
 
 /-- one call of either kind.  A modelled call works on `ctx` exactly as `CCtx.apply`; the getter slots stay (the stored
     enumerations that `chewing_Reset` also drops are not modelled here: `Model/CApiOps.lean`, C15 / C17). -/
-def GCtx.step (g : GCtx D L) : CCall → Outcome (GCtx D L × CRes)
+def GCtx.step (g : GCtx D L) : GCall → Outcome (GCtx D L × GRes)
   | .op o => (g.ctx.apply env o).map fun r => ({ g with ctx := r.1 }, .rc r.2)
   | .get q => (g.get env bopo q).map fun r => (r.1, .val r.2)
 
 /-- a history of calls and getter calls: the final context and all results, in order -/
-def GCtx.run (g : GCtx D L) : List CCall → Outcome (GCtx D L × List CRes)
+def GCtx.run (g : GCtx D L) : List GCall → Outcome (GCtx D L × List GRes)
   | [] => .ok (g, [])
   | c :: cs =>
     match g.step env bopo c with
